@@ -216,10 +216,10 @@ type snaState struct {
 }
 
 type aVal struct {
-	kind  string // bool | dist | sdist | p1 | p2 | H | int | unknown
-	b     bool
-	d     dClass
-	n     int64
+	kind string // bool | dist | sdist | p1 | p2 | H | int | unknown
+	b    bool
+	d    dClass
+	n    int64
 }
 
 func evalSna(p *Prog, fn *ssa.Function, st snaState, depth int) (bool, string) {
